@@ -354,6 +354,8 @@ def _shapes(p, eff, kind, value, out):
     if kind in "ib" and floaty and F64_MAX_INT < abs(int(value)) < 2 ** 1024 - 2 ** 970:
         add("int-float-above-max-rejected")
     if kind in "ib" and p.type == "c":
+        if p.sign or p.alt or p.group:
+            return                      # rejected by both
         if p.prec is not None:
             add("int-c-precision-accepted")
         if 0xD800 <= int(value) <= 0xDFFF:
@@ -466,6 +468,7 @@ def oracle(req, impl_out):
         return None
     spec, _ = parse_req(req)
     parts = []
+    bad.sort(key=lambda b: b[4] is not None)        # deviations without a listed shape first
     for k, v, got, exp, key in bad[:6]:
         vv = v if not (isinstance(v, int) and abs(v) > 10 ** 30) else "int(%d digits)" % len(str(abs(v)))
         parts.append(f"format({vv!r}, {spec!r}): got {_show(got)}, CPython {_show(exp)}" + (f" [{key}]" if key else ""))
@@ -668,6 +671,35 @@ def _validate_spec(ctx):
                                     "values_checked": checked, "mismatches": bad, "examples": examples}
     if bad:
         ctx.notes.append(f"SPEC DEFECT: Spec.pyFormat differs from CPython on {bad} inputs, e.g. {examples[:2]}")
+    # how much of the input space the theorems' domain covers, and that it avoids every listed shape
+    dreqs = reqs[:25260] if len(reqs) > 25260 else reqs
+    douts = core.run_lines([drv], ["dom" + r[3:] for r in dreqs], jobs=4 if ctx.quick else 16)
+    tot = ins = clash = free_out = 0
+    clashes = []
+    for r, o in zip(dreqs, douts):
+        spec, vals = parse_req(r)
+        res = o.split(" ")
+        if len(res) != len(vals):
+            continue
+        for (k, v), d in zip(vals, res):
+            if k == "f":
+                continue
+            tot += 1
+            sh = shape(spec, k, v)
+            if d == "1":
+                ins += 1
+                if sh is not None:
+                    clash += 1
+                    if len(clashes) < 5:
+                        clashes.append(f"{spec!r} {v!r} [{sh}]")
+            elif sh is None:
+                free_out += 1
+    ctx.extra["theorem_domain"] = {
+        "what": "Lean InDomain (Thm.lean) evaluated on the exhaustive len<=3 specs x fixed int/str/bool values",
+        "pairs": tot, "in_domain": ins, "in_domain_with_known_shape": clash, "examples": clashes,
+        "outside_domain_without_known_shape": free_out}
+    if clash:
+        ctx.notes.append(f"InDomain contains {clash} inputs that have a known-finding shape, e.g. {clashes[:2]}")
 
 
 def streams(ctx):
